@@ -169,7 +169,7 @@ def check_body(res, prop, cm, roles, m, k, b):
                 if cm.name in TTL_CACHES and ttl_head_expired:
                     okv = True      # expired-first victim: C16
                 else:
-                    okv = v.kind == 'BACK' and v.epoch == 0 and seg.cond('FULL') is True
+                    okv = seg.names_back(v) and seg.cond('FULL') is True
                 wantv = 'back() of the order list under size >= capacity (the last used node)'
             res.ob('R-VICTIM', ok=okv)
             if not okv:
